@@ -100,7 +100,7 @@ V("c12-readout-default-constraint", "break", ["C12"], (MD, "        constraint: 
 
 # ---------------------------------------------------------------- C01
 DOCS = "unit_scaling/docs.py"
-V("c01-data-scale-std", "break", ["C01", "C02"], (FN, "    output_scale = inner_size**-0.5\n", "    output_scale = 1 / float(left.std())\n"), expect="R1-taint")
+V("c01-data-scale-std", "break", ["C01", "C02"], (FN, "    output_scale = inner_size**-0.5\n", "    output_scale = 1 / float(left.std())\n"), expect="matmul")
 V("c01-data-batch", "break", ["C01", "C02"], (FN, "    if len(input.shape) == 2:\n        batch_size, vocab_size = input.shape\n", "    if len(input.shape) == 2:\n        batch_size, vocab_size = input.shape\n        vocab_size = int(target.max()) + 1\n"))
 V("c01-keep-inplace-on-fresh", "keep", ["C01", "C02"], (FN, "    return F.gelu(x * mult, approximate=approximate) / mult", "    x *= mult\n    return F.gelu(x, approximate=approximate) / mult"))
 V("c01-inplace-input", "break", ["C01"], (FN, "    output = input / rms(input, dims=dims, keepdim=True, eps=eps)", "    input /= rms(input, dims=dims, keepdim=True, eps=eps)\n    output = input"))
@@ -127,3 +127,21 @@ V("c01-keep-gelu-nospecial", "keep", ["C01", "C02", "C05"], (FN, "    if mult ==
 V("c01-keep-silu-form", "keep", ["C01", "C02"], (FN, "    return x * F.sigmoid(x * mult)", "    return F.silu(x * mult) / mult"))
 V("c01-keep-helper", "keep", ["C01", "C02", "C03", "C05", "C12"], (FN, "    output_scale = 1 / fan_in ** scale_power[0]\n    grad_input_scale = 1 / fan_out ** scale_power[1]", "    def _inv_pow(n, e):\n        return 1 / n**e\n\n    output_scale = _inv_pow(fan_in, scale_power[0])\n    grad_input_scale = _inv_pow(fan_out, scale_power[1])"))
 V("c01-keep-mse-numel", "keep", ["C01", "C02", "C03"], (FN, "        return scale_fwd(loss, 1 / input.nelement())", "        return scale_fwd(loss, 1 / input.numel())"))
+
+# ---------------------------------------------------------------- C02
+SCALE = "unit_scaling/scale.py"
+V("c02-fwd-leaks-bwd", "break", ["C02"], (SCALE, "    return _scale(input, fwd_scale=scale)", "    return _scale(input, fwd_scale=scale, bwd_scale=scale)"), expect="scale_fwd")
+V("c02-bwd-abs", "break", ["C02"], (SCALE, "        return bwd_scale * grad_Y, None, None", "        return bwd_scale.abs() * grad_Y, None, None"), expect="backward")
+V("c02-proxy-saves-fwd", "break", ["C02"], (SCALE, "            ctx.save_for_backward(bwd_scale)  # type: ignore", "            ctx.save_for_backward(fwd_scale)  # type: ignore"), expect="proxy-scale")
+V("c02-proxy-tensor-const", "break", ["C02"], (SCALE, "            ctx.save_for_backward(torch.tensor(bwd_scale))\n", "            ctx.save_for_backward(torch.tensor(1.0))\n"), expect="proxy-tensor")
+V("c02-forward-uses-bwd", "break", ["C02"], (SCALE, "        return fwd_scale * X", "        return fwd_scale * bwd_scale * X"))
+V("c02-wrong-operand", "break", ["C02"], (FN, "    weight = scale_bwd(weight, grad_weight_scale)\n    bias = scale_bwd(bias, grad_bias_scale) if bias is not None else None\n    output = F.linear", "    weight = scale_bwd(input, grad_weight_scale)\n    bias = scale_bwd(bias, grad_bias_scale) if bias is not None else None\n    output = F.linear"))
+V("c02-drop-bias-scale", "break", ["C02"], (FN, "    bias = scale_bwd(bias, grad_bias_scale) if bias is not None else None\n    output = F.linear", "    output = F.linear"), expect="linear::scale_bwd(bias)")
+V("c02-double-scale", "break", ["C02"], (FN, "    left = scale_bwd(left, left_grad_scale)\n", "    left = scale_bwd(scale_bwd(left, left_grad_scale), left_grad_scale)\n"), expect="matmul::scale_bwd(left)")
+V("c02-bwd-after-op", "break", ["C02"], (FN, "    output = torch.matmul(left, right)\n    return scale_fwd(output, output_scale)", "    output = torch.matmul(left, right)\n    return scale_bwd(scale_fwd(output, output_scale), 0.5)"))
+V("c02-mse-target-unscaled", "break", ["C02"], (FN, "    target = scale_bwd(target, grad_scale)\n", ""))
+V("c02-sdpa-value-only", "break", ["C02"], (FN, "    query, key, value = (scale_bwd(t, scale) for t in (query, key, value))", "    value = scale_bwd(value, scale)"))
+V("c02-embedding-unscaled", "break", ["C02", "C03"], (FN, "    weight = scale_bwd(weight, (weight.shape[0] / batch_size) ** 0.5)\n", ""))
+V("c02-elementwise-bwd-fwd", "break", ["C02"], (CF, "        input = scale_bwd(input, grad_input_scale)\n", "        input = scale_fwd(input, grad_input_scale)\n"))
+V("c02-keep-genexpr", "keep", ["C02", "C01"], (FN, "    query, key, value = (scale_bwd(t, scale) for t in (query, key, value))", "    query = scale_bwd(query, scale)\n    key = scale_bwd(key, scale)\n    value = scale_bwd(value, scale)"))
+V("c02-keep-dtype-cast", "keep", ["C02"], (SCALE, "            ctx.save_for_backward(torch.tensor(bwd_scale, dtype=X.dtype))", "            saved = torch.tensor(bwd_scale, dtype=X.dtype)\n            ctx.save_for_backward(saved)"))
